@@ -255,3 +255,23 @@ def run_from_bitarray(case):
 
 
 HANDLERS['from_bitarray'] = run_from_bitarray
+
+
+def run_decode(case):
+    """call a decoder module's decode_instruction(word) (no processor involved); returns [0,0] for None,
+    [0,1,code] for a concrete encoding class, or the exception encoding"""
+    import implrun
+    import importlib
+    mod = importlib.import_module('armulator.armv6.opcodes.decoders.' + case['module'])
+    try:
+        with contextlib.redirect_stdout(io.StringIO()):
+            r = mod.decode_instruction(case['instr'])
+    except Exception as e:  # noqa
+        return implrun.exn_enc(e)
+    if r is None:
+        return [0, 0]
+    t = tables()
+    return [0, 1, t['concrete_classes'][r.__name__]['code']]
+
+
+HANDLERS['decode'] = run_decode
